@@ -134,7 +134,13 @@ def generate(rng, tier, idx):
         sc['join_partitions'] = [list(p) for p in sc['join_partitions']]
     sc['timing_pattern'] = [rng.choice(TIMINGS) for _ in range(rng.choice([1, 1, 2, 3, 4]))]
     sc['hwm'] = rng.choice([None, None, 1, 2, 16])
-    nb = len(text.encode('utf-8'))
+    if rng.random() < 0.07 and sc['pace']['mode'] != 'query':
+        # input that is not valid UTF-8 at its very end (a character cut short by a truncated file, or a stray byte), often right
+        # after a line break: every delivery must report what bulk reading reports
+        if rng.random() < 0.6 and text and text[-1] not in '\r\n':
+            sc['text'] = text = text + rng.choice(['\n', '\r\n'])
+        sc['tail_hex'] = rng.choice(['e2', 'e282', 'f09f98', 'c3', 'ff', '80', 'f0'])
+    nb = len(scenario_bytes(sc))
     if nb <= 7:
         sc['partitions'] = 'all'
     else:
@@ -145,6 +151,11 @@ def generate(rng, tier, idx):
             parts.add(tuple(c12.random_composition(rng, nb)))
         sc['partitions'] = sorted(list(p) for p in parts)
     return sc
+
+
+def scenario_bytes(sc):
+    # tail_hex: bytes that are NOT valid UTF-8 (a character cut short, a stray continuation or 0xff byte) appended to the encoded text
+    return sc['text'].encode('utf-8') + bytes.fromhex(sc.get('tail_hex') or '')
 
 
 def base_req(sc):
@@ -161,10 +172,14 @@ def plan_for(data, pieces, pattern):
     return plan
 
 
-def view(resp, two_readers=False):
+def view(resp, two_readers=False, invalid_input=False):
     if resp.get('uncaught_exceptions'):
         # thrown out of an event handler of the reader: a program without a process-level handler dies here
         return ['uncaught', resp['uncaught_exceptions'][0]]
+    if invalid_input and resp['outcome'][0] == 'err':
+        # input that is wrong in more than one way (bad bytes at the end, unbalanced quotes before them): which defect is met
+        # first depends on the delivery, and each is a correct rejection. That it is rejected, and how (class), must not.
+        return ['err', resp['outcome'][1], '<any message>']
     if resp['outcome'] == ['ok']:
         return ['ok', resp['records'], resp['header'], resp['warnings']]
     oc = resp['outcome']
@@ -186,7 +201,7 @@ def iter_partitions(sc, nb):
 def execute(sc):
     core.load_tree()
     counters = {}
-    data = sc['text'].encode('utf-8')
+    data = scenario_bytes(sc)
     nb = len(data)
     res = {'verdict': 'ok', 'oracle': None, 'counters': counters, 'evals': 0, 'nontrivial': 0, 'steps': 0}
     key_sc = {k: v for k, v in sc.items() if k not in ('partitions', 'kind', 'pieces', 'join_pieces')}
@@ -200,11 +215,12 @@ def execute(sc):
     bulk = jsbridge.call(dict(common, mode='bulk', hex=data.hex()))
     res['evals'] += 1
     two = sc.get('join_text') is not None
-    ref = view(bulk, two)
+    invalid = bool(sc.get('tail_hex')) and sc['encoding'] == 'utf-8'
+    ref = view(bulk, two, invalid)
     interesting = c12.content_is_interesting(sc)
     if bulk.get('unhandled_rejections'):
         bump(counters, 'probe.unhandled_rejection_bulk')
-    if ref[0] == 'err' and ref[1] == 'RbqlIOHandlingError' and 'decode' in ref[2]:
+    if ref[0] == 'err' and ref[1] == 'RbqlIOHandlingError' and 'decode' in ref[2] and not sc.get('tail_hex'):
         res.update(verdict='violation', oracle='valid_utf8_rejected', detail={'mode': 'bulk', 'outcome': ref}, case=dict(sc))
         res['digest'] = core.digest([ref])
         return res
@@ -216,7 +232,7 @@ def execute(sc):
         res['nontrivial'] = 1
         res['steps'] = r['counters']['turn']
         if out != ref:
-            res.update(verdict='violation', oracle=classify(out), detail=diff_detail(ref, out, None), case=dict(sc))
+            res.update(verdict='violation', oracle=classify(out, sc), detail=diff_detail(ref, out, None), case=dict(sc))
         res['digest'] = core.digest([ref[0], out[0], len(str(out))])
         return res
     parts = iter_partitions(sc, nb)
@@ -237,7 +253,7 @@ def execute(sc):
     for pieces, r in zip(parts, outs):
         res['evals'] += 1
         res['steps'] += r['counters']['turn'] + r['counters']['read_calls']
-        out = view(r, two)
+        out = view(r, two, invalid)
         digest_parts.append(out[0])
         bs = core.boundaries(pieces)
         if any((data[b] & 0xC0) == 0x80 for b in bs):
@@ -256,7 +272,7 @@ def execute(sc):
             case['pieces'] = list(pieces)
             if jdata is not None:
                 case['join_pieces'] = sc['join_partitions'][parts.index(pieces) % len(sc['join_partitions'])] if sc['kind'] != 'single' else sc['join_pieces']
-            res.update(verdict='violation', oracle=classify(out), detail=diff_detail(ref, out, pieces), case=case)
+            res.update(verdict='violation', oracle=classify(out, sc), detail=diff_detail(ref, out, pieces), case=case)
             break
     for t in pattern:
         bump(counters, 'sched.timing_' + t)
@@ -265,6 +281,8 @@ def execute(sc):
         bump(counters, 'sched.two_readers_join_stream')
     if sc.get('many_records'):
         bump(counters, 'sched.more_than_131072_records')
+    if sc.get('tail_hex'):
+        bump(counters, 'fault.input_ends_in_invalid_utf8')
     if sc['text'][:1] == '﻿':
         bump(counters, 'probe.bom_present')
     if ref[0] == 'ok' and isinstance(ref[1], list) and sc['policy'] == 'quoted_rfc' and any(isinstance(f, str) and '\n' in f for rec in ref[1] for f in rec):
@@ -281,9 +299,11 @@ def confirm(case, result):
     return again['verdict'] == 'violation' and again['oracle'] == result['oracle']
 
 
-def classify(out):
+def classify(out, sc=None):
     if out[0] == 'hang':
         return 'hang'
+    if sc is not None and sc.get('tail_hex'):
+        return 'chunking'      # the input is not valid UTF-8: whatever differs from bulk reading is a delivery dependence
     if out[0] == 'err' and out[1] == 'RbqlIOHandlingError' and 'decode' in out[2]:
         return 'valid_utf8_rejected'
     return 'chunking'
@@ -316,10 +336,12 @@ def shrinks(sc):
     text = sc['text']
     pieces = list(sc['pieces'])
 
-    def with_text(nt):
+    def with_text(nt, drop_tail=False):
         c = dict(sc)
         c['text'] = nt
-        n = len(nt.encode('utf-8'))
+        if drop_tail:
+            c.pop('tail_hex', None)
+        n = len(scenario_bytes(c))
         bs = [b for b in core.boundaries(pieces) if b < n]
         np_, prev = [], 0
         for b in bs:
@@ -329,6 +351,8 @@ def shrinks(sc):
             np_.append(n - prev)
         c['pieces'] = np_
         return c
+    if sc.get('tail_hex'):
+        yield with_text(text, drop_tail=True)
     size = len(text) // 2
     while size >= 2:
         for i in range(0, len(text), size):
